@@ -473,25 +473,53 @@ Lemma dec_scan_10 r : dec_scan 10 r =
              (m_inval st || (m_prev st =? 2) || (m_count st =? 0))).
 Proof. destruct r as [|c r1]; reflexivity. Qed.
 
-Lemma mant_stop_e fch rest fracOk prev inval count dp acc : (fch = 101 \/ fch = 69) ->
-  mant_loop 10 10 (fch :: rest) fracOk prev inval count dp acc = mkM (fch :: rest) prev inval count dp acc.
+(* with base 0 a leading "0" is looked at for a prefix; a digit, a point, an
+   exponent character or the end of the input after it selects base 10 and the
+   scan continues exactly as in base 10 *)
+Definition not_prefix (r : bytes) : bool :=
+  match r with
+  | c2 :: _ => negb ((c2 =? 98) || (c2 =? 66) || (c2 =? 111) || (c2 =? 79) || (c2 =? 120) || (c2 =? 88))
+  | [] => true
+  end.
+
+Lemma dec_scan_dig base i0 r : (base = 10 \/ base = 0) -> is_digit i0 = true -> not_prefix r = true ->
+  dec_scan base (i0 :: r) =
+  Some (let st := mant_loop base 10 (i0 :: r) true 0 false 0 (-1) 0 in
+        mkDS (m_rest st) (m_acc st) 10 (if 0 <=? m_dp st then m_dp st - m_count st else m_count st)
+             (m_inval st || (m_prev st =? 2) || (m_count st =? 0))).
+Proof.
+  intros [-> | ->] Hd Hn; [reflexivity|].
+  destruct (Z.eqb_spec i0 48) as [->|Hne].
+  - (* leading zero *)
+    unfold dec_scan. cbn [valid_base Z.eqb orb negb andb]. change (48 =? 48) with true. cbv iota.
+    destruct r as [|c2 r2].
+    + reflexivity.
+    + unfold not_prefix in Hn. apply negb_true_iff in Hn.
+      rewrite !orb_false_iff in Hn. destruct Hn as [[[[[H1 H2] H3] H4] H5] H6].
+      rewrite H1, H2, H3, H4, H5, H6. cbn [orb]. cbv iota. reflexivity.
+  - unfold dec_scan. cbn [valid_base Z.eqb orb negb andb].
+    replace (i0 =? 48) with false by (symmetry; apply Z.eqb_neq; exact Hne). reflexivity.
+Qed.
+
+Lemma mant_stop_e base fch rest fracOk prev inval count dp acc : (fch = 101 \/ fch = 69) ->
+  mant_loop base 10 (fch :: rest) fracOk prev inval count dp acc = mkM (fch :: rest) prev inval count dp acc.
 Proof. intros [-> | ->]; reflexivity. Qed.
 
-Lemma mant_e_int I fch rest : all_digits I = true -> I <> [] -> (fch = 101 \/ fch = 69) ->
-  mant_loop 10 10 (I ++ fch :: rest) true 0 false 0 (-1) 0 = mkM (fch :: rest) 1 false (zlen I) (-1) (digval I 0).
+Lemma mant_e_int base I fch rest : all_digits I = true -> I <> [] -> (fch = 101 \/ fch = 69) ->
+  mant_loop base 10 (I ++ fch :: rest) true 0 false 0 (-1) 0 = mkM (fch :: rest) 1 false (zlen I) (-1) (digval I 0).
 Proof.
-  intros HI Hne Hf. rewrite (mant_loop_digits 10 I HI), mant_stop_e by assumption.
+  intros HI Hne Hf. rewrite (mant_loop_digits base I HI), mant_stop_e by assumption.
   destruct I; [congruence|reflexivity].
 Qed.
 
-Lemma mant_e_frac I F fch rest : all_digits I = true -> I <> [] -> all_digits F = true -> F <> [] ->
+Lemma mant_e_frac base I F fch rest : all_digits I = true -> I <> [] -> all_digits F = true -> F <> [] ->
   (fch = 101 \/ fch = 69) ->
-  mant_loop 10 10 (I ++ 46 :: F ++ fch :: rest) true 0 false 0 (-1) 0 =
+  mant_loop base 10 (I ++ 46 :: F ++ fch :: rest) true 0 false 0 (-1) 0 =
     mkM (fch :: rest) 1 false (zlen I + zlen F) (zlen I) (digval (I ++ F) 0).
 Proof.
-  intros HI Hne HF HneF Hf. rewrite (mant_loop_digits 10 I HI).
+  intros HI Hne HF HneF Hf. rewrite (mant_loop_digits base I HI).
   cbn [mant_loop]. change (46 =? 46) with true. cbn [andb].
-  rewrite (mant_loop_digits 10 F HF), mant_stop_e by assumption.
+  rewrite (mant_loop_digits base F HF), mant_stop_e by assumption.
   rewrite digval_app. destruct I; [congruence|]. destruct F; [congruence|]. reflexivity.
 Qed.
 
@@ -607,97 +635,6 @@ Qed.
 Lemma digit_not_inf c : is_digit c = true -> c <> 73 /\ c <> 105 /\ c <> 43 /\ c <> 45.
 Proof. intros H. apply is_digit_iff in H. lia. Qed.
 
-(* C11 for the 'e' and 'E' formats: parsing Text(x, fmt, -1) into a receiver
-   of precision at least MinPrec x gives back x exactly *)
-Theorem roundtrip_e x z fmt :
-  WF x -> dform x = Ffinite -> (fmt = 101 \/ fmt = 69) ->
-  mdigits (mant x) < 4294967296 - 36 -> 0 <= prec z <= MaxPrec ->
-  let p := if prec z =? 0 then DefaultDecimalPrec else prec z in
-  (forall mp, MinPrec x = Some mp -> mp <= p) ->
-  exists t z', Text x fmt (-1) = Some t /\ Parse z t 10 = POk z' 10 [] /\
-    dform z' = Ffinite /\ neg z' = neg x /\ (mag z' == mag x)%Q /\ acc z' = Exact /\
-    prec z' = p /\ dmode z' = dmode z /\ WF z'.
-Proof.
-  intros Hwf Hf Hfmt Hlen Hprec p Hmp.
-  pose proof (WF_finite x Hwf Hf) as Hx.
-  destruct (sig_digits x Hx Hf) as (D & S).
-  destruct (text_e x D fmt S Hf Hfmt) as (d0 & tl & ED & Ht).
-  pose proof (sd_digits x D S) as HdD. pose proof (sd_range x D S) as Hrange.
-  destruct (sd_len x D S) as [HlD HlD2].
-  assert (Hd0 : is_digit d0 = true /\ all_digits tl = true).
-  { rewrite ED in HdD. cbn [all_digits forallb] in HdD. now apply andb_true_iff in HdD. }
-  destruct Hd0 as [Hd0 Htl].
-  destruct (exp_digits_spec (exp x - 1)) as (Hed & Hev & Hene).
-  destruct Hx as [Hne Hok Htop Hprecx Hexp Htail].
-  set (E := exp x - 1) in *.
-  set (tail := [fmt; e_sign E] ++ exp_digits E).
-  set (body := [d0] ++ e_frac tl ++ tail).
-  exists (sign_bytes (neg x) ++ body).
-  (* the three scanners on the printed string *)
-  assert (Hsign : scanSign (sign_bytes (neg x) ++ body) = Some (neg x, body)).
-  { unfold sign_bytes, body. destruct (neg x); cbn [app scanSign].
-    - reflexivity.
-    - destruct (digit_facts d0 Hd0) as (_ & _ & E43 & E45 & _). now rewrite E45, E43. }
-  assert (Hes : e_sign E = 43 \/ e_sign E = 45) by (unfold e_sign; destruct (E <? 0); auto).
-  assert (HEabs : digval (exp_digits E) 0 <= MaxInt64).
-  { rewrite Hev. unfold MaxInt64, MinExp, MaxExp, E in *. lia. }
-  assert (Hscan : exists ds, dec_scan 10 body = Some ds /\ ds_err ds = false /\ ds_b ds = 10 /\
-            ds_val ds = digval D 0 /\ ds_rest ds = tail /\ Z.min (ds_count ds) 0 = 1 - zlen D /\ - 4294967296 < ds_count ds).
-  { rewrite dec_scan_10. eexists. split; [reflexivity|]. unfold body, tail.
-    assert (HzD : zlen D = zlen tl + 1) by (rewrite ED; apply zlen_cons).
-    destruct tl as [|c1 tl1].
-    - cbn [e_frac app]. change (d0 :: fmt :: e_sign E :: exp_digits E) with ([d0] ++ fmt :: e_sign E :: exp_digits E).
-      rewrite mant_e_int; [|cbn [all_digits forallb]; now rewrite Hd0|discriminate|exact Hfmt].
-      cbn [m_rest m_acc m_dp m_count m_inval m_prev ds_err ds_b ds_val ds_rest ds_count].
-      rewrite ED. cbn [zlen length digval]. repeat split; try reflexivity; lia.
-    - cbn [e_frac app]. change (d0 :: 46 :: c1 :: tl1 ++ fmt :: e_sign E :: exp_digits E)
-        with ([d0] ++ 46 :: (c1 :: tl1) ++ fmt :: e_sign E :: exp_digits E).
-      rewrite mant_e_frac; [|cbn [all_digits forallb]; now rewrite Hd0|discriminate|exact Htl|discriminate|exact Hfmt].
-      cbn [m_rest m_acc m_dp m_count m_inval m_prev ds_err ds_b ds_val ds_rest ds_count].
-      rewrite ED. change (zlen [d0]) with 1. rewrite (zlen_cons d0).
-      pose proof (zlen_nonneg (c1 :: tl1)).
-      replace (0 <=? 1) with true by reflexivity.
-      replace (1 + zlen (c1 :: tl1) =? 0) with false by (symmetry; apply Z.eqb_neq; lia).
-      repeat split; try reflexivity; lia. }
-  destruct Hscan as (ds & Hds & Herr & Hb & Hval & Hrest & Hcnt & Hcnt2).
-  assert (Hsx : scanExponent (10 =? 0) (ds_rest ds) = mkES [] E 10 false).
-  { rewrite Hrest. unfold tail. cbn [app].
-    rewrite scanExponent_form by assumption. f_equal.
-    rewrite Hev. unfold e_sign. destruct (Z.ltb_spec E 0).
-    - change (45 =? 45) with true. cbv iota. lia.
-    - change (43 =? 45) with false. cbv iota. lia. }
-  assert (Hv : 0 < ds_val ds).
-  { rewrite Hval. assert (0 < 10 ^ (zlen D - 1)) by (apply Z.pow_pos_nonneg; lia). lia. }
-  assert (Hnd : ndig (ds_val ds) = zlen D) by (rewrite Hval; apply ndig_digits; assumption).
-  pose proof (parse10_correct z (sign_bytes (neg x) ++ body) 10 (neg x) body ds Hsign Hds Herr Hb) as HP.
-  rewrite Hsx in HP. cbn [es_err es_base es_exp es_rest] in HP.
-  specialize (HP eq_refl eq_refl Hv ltac:(rewrite Hnd; lia) Hcnt2 Hprec).
-  cbv zeta in HP. destruct HP as [HP _]. rewrite Hcnt, Hnd in HP.
-  destruct (HP ltac:(unfold E; lia)) as (z' & Hrun & Hspec & Hp' & Hm' & Hwf').
-  exists z'. split; [exact Ht|]. split.
-  - rewrite Parse_scan.
-    + rewrite Hrun. reflexivity.
-    + intros c t Ect. unfold sign_bytes, body in Ect.
-      destruct (digit_not_inf d0 Hd0) as (A1 & A2 & _).
-      destruct (neg x); cbn [app] in Ect; injection Ect as <- <-.
-      * split; [lia|]. split; [lia|]. intros c2 t2 E2. injection E2 as <- _. auto.
-      * split; [exact A1|]. split; [exact A2|]. intros c2 t2 E2.
-        destruct tl as [|c1 tl1]; cbn [e_frac app] in E2; injection E2 as <- _.
-        -- destruct Hfmt as [-> | ->]; lia.
-        -- lia.
-  - fold p in Hspec, Hp'.
-    assert (Hmpx : zlen D <= p) by (apply Hmp; exact (sd_minprec x D S)).
-    rewrite Hval in Hspec.
-    destruct (result_spec_exact p (dmode z) (neg x) (digval D 0) (1 - zlen D + E) z') as (A1 & A2 & A3 & A4).
-    + rewrite <- Hval. exact Hv.
-    + rewrite <- Hval, Hnd. exact Hmpx.
-    + rewrite <- Hval, Hnd. unfold E. lia.
-    + exact Hspec.
-    + split; [exact A2|]. split; [exact A1|]. split.
-      * rewrite A3. rewrite (mag_sig x D S). apply (scaled_eq_gen _ _ _ _ (exp x - zlen D)); unfold E; try lia.
-        f_equal. f_equal. lia.
-      * split; [exact A4|]. split; [exact Hp'|]. split; [exact Hm'|exact Hwf'].
-Qed.
 
 (* C11_digits for 'e'/'E': the printed mantissa is d0 . tl where d0 :: tl are
    exactly the MinPrec significant digits of the stored mantissa *)
@@ -730,7 +667,34 @@ Qed.
 
 Definition opt_frac (F : bytes) : bytes := match F with [] => [] | _ => 46 :: F end.
 
-Lemma parse_efloat z ng I F fch sg eds :
+Lemma digit_not_prefix c r : is_digit c = true -> not_prefix (c :: r) = true.
+Proof.
+  intros H. apply is_digit_iff in H. unfold not_prefix. apply negb_true_iff.
+  rewrite !orb_false_iff. repeat split; apply Z.eqb_neq; lia.
+Qed.
+
+Lemma dec_scan_body base I rest : (base = 10 \/ base = 0) -> all_digits I = true -> I <> [] ->
+  not_prefix rest = true ->
+  dec_scan base (I ++ rest) =
+  Some (let st := mant_loop base 10 (I ++ rest) true 0 false 0 (-1) 0 in
+        mkDS (m_rest st) (m_acc st) 10 (if 0 <=? m_dp st then m_dp st - m_count st else m_count st)
+             (m_inval st || (m_prev st =? 2) || (m_count st =? 0))).
+Proof.
+  intros Hb HI Hne Hr. destruct I as [|i0 I0]; [congruence|].
+  cbn [all_digits forallb] in HI. apply andb_true_iff in HI as [Hi0 HI0].
+  cbn [app]. apply dec_scan_dig; try assumption.
+  destruct I0 as [|i1 I1]; [exact Hr|].
+  cbn [all_digits forallb] in HI0. apply andb_true_iff in HI0 as [Hi1 _].
+  cbn [app]. now apply digit_not_prefix.
+Qed.
+
+Lemma not_prefix_tail (F : bytes) fch t : (fch = 101 \/ fch = 69) -> not_prefix (opt_frac F ++ fch :: t) = true.
+Proof. intros Hf. destruct F; cbn [opt_frac app]; [destruct Hf as [-> | ->]|]; reflexivity. Qed.
+
+Lemma not_prefix_plain (F : bytes) : not_prefix (opt_frac F) = true.
+Proof. destruct F; reflexivity. Qed.
+
+Lemma parse_efloat base z ng I F fch sg eds : (base = 10 \/ base = 0) ->
   all_digits I = true -> I <> [] -> all_digits F = true -> (fch = 101 \/ fch = 69) ->
   (sg = 43 \/ sg = 45) -> all_digits eds = true -> eds <> [] -> digval eds 0 <= 1099511627776 ->
   let s := sign_bytes ng ++ I ++ opt_frac F ++ fch :: sg :: eds in
@@ -739,10 +703,10 @@ Lemma parse_efloat z ng I F fch sg eds :
   0 < v -> ndig v + 18 < 4294967296 - 18 -> zlen F < 4294967296 -> 0 <= prec z <= MaxPrec ->
   MinExp <= ndig v + e <= MaxExp ->
   let p := if prec z =? 0 then DefaultDecimalPrec else prec z in
-  exists z', Parse z s 10 = POk z' 10 [] /\
+  exists z', Parse z s base = POk z' 10 [] /\
     result_spec p (dmode z) ng (scaled v e) z' /\ prec z' = p /\ dmode z' = dmode z /\ WF z'.
 Proof.
-  intros HI HneI HF Hfmt Hsg Hed Hene Hemax s v e Hv Hlen HlenF Hprec HE p.
+  intros Hbase HI HneI HF Hfmt Hsg Hed Hene Hemax s v e Hv Hlen HlenF Hprec HE p.
   set (tail := fch :: sg :: eds).
   set (body := I ++ opt_frac F ++ tail).
   assert (exists i0 I0, I = i0 :: I0) as (i0 & I0 & EI) by (destruct I; [congruence|eauto]).
@@ -752,9 +716,10 @@ Proof.
   { unfold sign_bytes, body. rewrite EI. destruct ng; cbn [app scanSign].
     - reflexivity.
     - destruct (digit_facts i0 Hi0) as (_ & _ & E43 & E45 & _). now rewrite E45, E43. }
-  assert (Hscan : exists ds, dec_scan 10 body = Some ds /\ ds_err ds = false /\ ds_b ds = 10 /\
+  assert (Hscan : exists ds, dec_scan base body = Some ds /\ ds_err ds = false /\ ds_b ds = 10 /\
             ds_val ds = v /\ ds_rest ds = tail /\ Z.min (ds_count ds) 0 = - zlen F /\ - 4294967296 < ds_count ds).
-  { rewrite dec_scan_10. eexists. split; [reflexivity|]. unfold body, tail.
+  { unfold body. rewrite (dec_scan_body base I (opt_frac F ++ tail) Hbase HI HneI (not_prefix_tail F fch _ Hfmt)).
+    eexists. split; [reflexivity|]. unfold tail.
     assert (HzI : 1 <= zlen I) by (rewrite EI, zlen_cons; pose proof (zlen_nonneg I0); lia).
     destruct F as [|f0 F0].
     - cbn [opt_frac app]. rewrite mant_e_int by assumption.
@@ -772,10 +737,10 @@ Proof.
       replace (zlen I + zlen F =? 0) with false by (symmetry; apply Z.eqb_neq; lia).
       repeat split; try reflexivity; lia. }
   destruct Hscan as (ds & Hds & Herr & Hb & Hval & Hrest & Hcnt & Hcnt2).
-  assert (Hsx : scanExponent (10 =? 0) (ds_rest ds) =
+  assert (Hsx : scanExponent (base =? 0) (ds_rest ds) =
                 mkES [] (if sg =? 45 then - digval eds 0 else digval eds 0) 10 false).
   { rewrite Hrest. unfold tail. apply scanExponent_form; try assumption. unfold MaxInt64. lia. }
-  pose proof (parse10_correct z (sign_bytes ng ++ body) 10 ng body ds Hsign Hds Herr Hb) as HP.
+  pose proof (parse10_correct z (sign_bytes ng ++ body) base ng body ds Hsign Hds Herr Hb) as HP.
   rewrite Hsx in HP. cbn [es_err es_base es_exp es_rest] in HP.
   rewrite Hval in HP.
   specialize (HP eq_refl eq_refl Hv Hlen Hcnt2 Hprec).
@@ -797,6 +762,54 @@ Proof.
       * cbn [app] in E2. injection E2 as <- _.
         rewrite EI in HI. cbn [all_digits forallb] in HI. apply andb_true_iff in HI as [_ HI].
         apply andb_true_iff in HI as [HI _]. destruct (digit_not_inf i1 HI) as (B1 & B2 & _). auto.
+Qed.
+
+(* C11 for the 'e' and 'E' formats: parsing Text(x, fmt, -1) into a receiver
+   of precision at least MinPrec x gives back x exactly *)
+Theorem roundtrip_e base x z fmt :
+  (base = 10 \/ base = 0) -> WF x -> dform x = Ffinite -> (fmt = 101 \/ fmt = 69) ->
+  mdigits (mant x) < 4294967296 - 36 -> 0 <= prec z <= MaxPrec ->
+  let p := if prec z =? 0 then DefaultDecimalPrec else prec z in
+  (forall mp, MinPrec x = Some mp -> mp <= p) ->
+  exists t z', Text x fmt (-1) = Some t /\ Parse z t base = POk z' 10 [] /\
+    dform z' = Ffinite /\ neg z' = neg x /\ (mag z' == mag x)%Q /\ acc z' = Exact /\
+    prec z' = p /\ dmode z' = dmode z /\ WF z'.
+Proof.
+  intros Hbase Hwf Hf Hfmt Hlen Hprec p Hmp.
+  pose proof (WF_finite x Hwf Hf) as Hx.
+  destruct (sig_digits x Hx Hf) as (D & S).
+  destruct (text_e x D fmt S Hf Hfmt) as (d0 & tl & ED & Ht).
+  pose proof (sd_digits x D S) as HdD. pose proof (sd_range x D S) as Hrange.
+  destruct (sd_len x D S) as [HlD HlD2].
+  assert (Hd0 : is_digit d0 = true /\ all_digits tl = true).
+  { rewrite ED in HdD. cbn [all_digits forallb] in HdD. now apply andb_true_iff in HdD. }
+  destruct Hd0 as [Hd0 Htl].
+  destruct Hx as [Hne Hok Htop Hprecx Hexp Htail].
+  set (E := exp x - 1) in *.
+  destruct (exp_digits_spec E) as (Hed & Hev & Hene).
+  assert (Hes : e_sign E = 43 \/ e_sign E = 45) by (unfold e_sign; destruct (E <? 0); auto).
+  assert (HEv : (if e_sign E =? 45 then - digval (exp_digits E) 0 else digval (exp_digits E) 0) = E).
+  { rewrite Hev. unfold e_sign. destruct (Z.ltb_spec E 0); cbn [Z.eqb Pos.eqb]; lia. }
+  assert (Hv0 : digval ([d0] ++ tl) 0 = digval D 0) by (rewrite ED; reflexivity).
+  assert (HzD : zlen D = zlen tl + 1) by (rewrite ED; apply zlen_cons).
+  assert (Hnd : ndig (digval D 0) = zlen D) by (apply ndig_digits; assumption).
+  assert (Hpos : 0 < digval D 0).
+  { assert (0 < 10 ^ (zlen D - 1)) by (apply Z.pow_pos_nonneg; lia). lia. }
+  assert (Hemax : digval (exp_digits E) 0 <= 1099511627776) by (rewrite Hev; unfold E, MinExp, MaxExp in *; lia).
+  assert (Hd0l : all_digits [d0] = true) by (cbn [all_digits forallb]; now rewrite Hd0).
+  pose proof (parse_efloat base z (neg x) [d0] tl fmt (e_sign E) (exp_digits E)
+                Hbase Hd0l ltac:(discriminate) Htl Hfmt Hes Hed Hene Hemax) as HP.
+  cbv zeta in HP. rewrite Hv0, Hnd, HEv in HP.
+  destruct (HP Hpos ltac:(lia) ltac:(lia) Hprec ltac:(unfold E; lia)) as (z' & Hrun & Hspec & Hp' & Hm' & Hwf').
+  fold p in Hspec, Hp'.
+  exists (sign_bytes (neg x) ++ [d0] ++ e_frac tl ++ [fmt; e_sign E] ++ exp_digits E), z'.
+  split; [exact Ht|]. split; [exact Hrun|].
+  assert (Hmpx : zlen D <= p) by (apply Hmp; exact (sd_minprec x D S)).
+  replace (E - zlen tl) with (exp x - zlen D) in Hspec by (unfold E; lia).
+  destruct (result_spec_exact p (dmode z) (neg x) (digval D 0) (exp x - zlen D) z') as (A1 & A2 & A3 & A4);
+    try assumption; try lia.
+  split; [exact A2|]. split; [exact A1|]. split; [rewrite A3; symmetry; apply (mag_sig x D S)|].
+  split; [exact A4|]. auto.
 Qed.
 
 (* ------------------------------------------------------------------ *)
@@ -832,16 +845,16 @@ Qed.
 Lemma result_spec_ext' p md ng v v' z : (v == v')%Q -> result_spec p md ng v z -> result_spec p md ng v' z.
 Proof. apply result_spec_ext. Qed.
 
-Theorem roundtrip_p x z :
-  WF x -> dform x = Ffinite ->
+Theorem roundtrip_p base x z :
+  (base = 10 \/ base = 0) -> WF x -> dform x = Ffinite ->
   mdigits (mant x) < 4294967296 - 36 -> 0 <= prec z <= MaxPrec ->
   let p := if prec z =? 0 then DefaultDecimalPrec else prec z in
   (forall mp, MinPrec x = Some mp -> mp <= p) ->
-  exists t z', Text x 112 (-1) = Some t /\ Parse z t 10 = POk z' 10 [] /\
+  exists t z', Text x 112 (-1) = Some t /\ Parse z t base = POk z' 10 [] /\
     dform z' = Ffinite /\ neg z' = neg x /\ (mag z' == mag x)%Q /\ acc z' = Exact /\
     prec z' = p /\ dmode z' = dmode z /\ WF z'.
 Proof.
-  intros Hwf Hf Hlen Hprec p Hmp.
+  intros Hbase Hwf Hf Hlen Hprec p Hmp.
   pose proof (WF_finite x Hwf Hf) as Hx.
   destruct (sig_digits x Hx Hf) as (D & S).
   pose proof (text_p x D S Hf) as Ht.
@@ -855,8 +868,8 @@ Proof.
   { assert (0 < 10 ^ (zlen D - 1)) by (apply Z.pow_pos_nonneg; lia). lia. }
   assert (Hsg : pb_sign (exp x) = 43 \/ pb_sign (exp x) = 45) by (unfold pb_sign; destruct (exp x <? 0); auto).
   assert (Hemax : digval (itoa_nonneg (Z.abs (exp x))) 0 <= 1099511627776) by (rewrite Hev; unfold MinExp, MaxExp in *; lia).
-  pose proof (parse_efloat z (neg x) [48] D 101 (pb_sign (exp x)) (itoa_nonneg (Z.abs (exp x)))
-                eq_refl ltac:(discriminate) HdD (or_introl eq_refl) Hsg Hed Hene Hemax) as HP.
+  pose proof (parse_efloat base z (neg x) [48] D 101 (pb_sign (exp x)) (itoa_nonneg (Z.abs (exp x)))
+                Hbase eq_refl ltac:(discriminate) HdD (or_introl eq_refl) Hsg Hed Hene Hemax) as HP.
   cbv zeta in HP. rewrite Hv0, Hnd, pb_exp_val in HP.
   destruct (HP Hpos ltac:(lia) ltac:(lia) Hprec ltac:(lia)) as (z' & Hrun & Hspec & Hp' & Hm' & Hwf').
   fold p in Hspec, Hp'.
@@ -935,16 +948,16 @@ Proof.
   rewrite <- E. unfold sign_bytes. rewrite <- !app_assoc. reflexivity.
 Qed.
 
-Theorem roundtrip_b x z :
-  WF x -> dform x = Ffinite ->
+Theorem roundtrip_b base x z :
+  (base = 10 \/ base = 0) -> WF x -> dform x = Ffinite ->
   mdigits (mant x) < 4294967296 - 36 -> prec x < 4294967296 - 36 -> 0 <= prec z <= MaxPrec ->
   let p := if prec z =? 0 then DefaultDecimalPrec else prec z in
   (forall mp, MinPrec x = Some mp -> mp <= p) ->
-  exists t z', Text x 98 (-1) = Some t /\ Parse z t 10 = POk z' 10 [] /\
+  exists t z', Text x 98 (-1) = Some t /\ Parse z t base = POk z' 10 [] /\
     dform z' = Ffinite /\ neg z' = neg x /\ (mag z' == mag x)%Q /\ acc z' = Exact /\
     prec z' = p /\ dmode z' = dmode z /\ WF z'.
 Proof.
-  intros Hwf Hf Hlen Hxp Hprec p Hmp.
+  intros Hbase Hwf Hf Hlen Hxp Hprec p Hmp.
   pose proof (WF_finite x Hwf Hf) as Hx.
   destruct (sig_digits x Hx Hf) as (D & S).
   pose proof (text_b x D Hx S Hf) as Ht.
@@ -972,8 +985,8 @@ Proof.
   assert (Hsg : pb_sign e' = 43 \/ pb_sign e' = 45) by (unfold pb_sign; destruct (e' <? 0); auto).
   assert (Hemax : digval (itoa_nonneg (Z.abs e')) 0 <= 1099511627776).
   { rewrite Hev. unfold e', MinExp, MaxExp, MaxPrec in *. lia. }
-  pose proof (parse_efloat z (neg x) (D ++ zeros j) [] 101 (pb_sign e') (itoa_nonneg (Z.abs e'))
-                HI HneI eq_refl (or_introl eq_refl) Hsg Hed Hene Hemax) as HP.
+  pose proof (parse_efloat base z (neg x) (D ++ zeros j) [] 101 (pb_sign e') (itoa_nonneg (Z.abs e'))
+                Hbase HI HneI eq_refl (or_introl eq_refl) Hsg Hed Hene Hemax) as HP.
   cbv zeta in HP. rewrite Hv0, Hnd, pb_exp_val in HP. change (zlen (@nil Z)) with 0 in HP. rewrite Z.sub_0_r in HP.
   destruct (HP ltac:(nia) ltac:(lia) ltac:(lia) Hprec ltac:(unfold e'; lia)) as (z' & Hrun & Hspec & Hp' & Hm' & Hwf').
   fold p in Hspec, Hp'.
@@ -1012,24 +1025,24 @@ Qed.
 (* ------------------------------------------------------------------ *)
 (* parsing  [-] I [ . F ]  (no exponent part) in base 10 *)
 
-Lemma mant_plain_int I : all_digits I = true -> I <> [] ->
-  mant_loop 10 10 I true 0 false 0 (-1) 0 = mkM [] 1 false (zlen I) (-1) (digval I 0).
+Lemma mant_plain_int base I : all_digits I = true -> I <> [] ->
+  mant_loop base 10 I true 0 false 0 (-1) 0 = mkM [] 1 false (zlen I) (-1) (digval I 0).
 Proof.
-  intros HI Hne. rewrite <- (app_nil_r I) at 1. rewrite (mant_loop_digits 10 I HI).
+  intros HI Hne. rewrite <- (app_nil_r I) at 1. rewrite (mant_loop_digits base I HI).
   cbn [mant_loop]. destruct I; [congruence|reflexivity].
 Qed.
 
-Lemma mant_plain_frac I F : all_digits I = true -> I <> [] -> all_digits F = true -> F <> [] ->
-  mant_loop 10 10 (I ++ 46 :: F) true 0 false 0 (-1) 0 =
+Lemma mant_plain_frac base I F : all_digits I = true -> I <> [] -> all_digits F = true -> F <> [] ->
+  mant_loop base 10 (I ++ 46 :: F) true 0 false 0 (-1) 0 =
     mkM [] 1 false (zlen I + zlen F) (zlen I) (digval (I ++ F) 0).
 Proof.
-  intros HI Hne HF HneF. rewrite (mant_loop_digits 10 I HI).
+  intros HI Hne HF HneF. rewrite (mant_loop_digits base I HI).
   cbn [mant_loop]. change (46 =? 46) with true. cbn [andb].
-  rewrite <- (app_nil_r F) at 1. rewrite (mant_loop_digits 10 F HF). cbn [mant_loop].
+  rewrite <- (app_nil_r F) at 1. rewrite (mant_loop_digits base F HF). cbn [mant_loop].
   rewrite digval_app. destruct I; [congruence|]. destruct F; [congruence|]. reflexivity.
 Qed.
 
-Lemma parse_plain z ng I F :
+Lemma parse_plain base z ng I F : (base = 10 \/ base = 0) ->
   all_digits I = true -> I <> [] -> all_digits F = true ->
   let s := sign_bytes ng ++ I ++ opt_frac F in
   let v := digval (I ++ F) 0 in
@@ -1037,10 +1050,10 @@ Lemma parse_plain z ng I F :
   0 < v -> ndig v + 18 < 4294967296 - 18 -> zlen F < 4294967296 -> 0 <= prec z <= MaxPrec ->
   MinExp <= ndig v + e <= MaxExp ->
   let p := if prec z =? 0 then DefaultDecimalPrec else prec z in
-  exists z', Parse z s 10 = POk z' 10 [] /\
+  exists z', Parse z s base = POk z' 10 [] /\
     result_spec p (dmode z) ng (scaled v e) z' /\ prec z' = p /\ dmode z' = dmode z /\ WF z'.
 Proof.
-  intros HI HneI HF s v e Hv Hlen HlenF Hprec HE p.
+  intros Hbase HI HneI HF s v e Hv Hlen HlenF Hprec HE p.
   set (body := I ++ opt_frac F).
   assert (exists i0 I0, I = i0 :: I0) as (i0 & I0 & EI) by (destruct I; [congruence|eauto]).
   assert (Hi0 : is_digit i0 = true).
@@ -1049,9 +1062,10 @@ Proof.
   { unfold sign_bytes, body. rewrite EI. destruct ng; cbn [app scanSign].
     - reflexivity.
     - destruct (digit_facts i0 Hi0) as (_ & _ & E43 & E45 & _). now rewrite E45, E43. }
-  assert (Hscan : exists ds, dec_scan 10 body = Some ds /\ ds_err ds = false /\ ds_b ds = 10 /\
+  assert (Hscan : exists ds, dec_scan base body = Some ds /\ ds_err ds = false /\ ds_b ds = 10 /\
             ds_val ds = v /\ ds_rest ds = [] /\ Z.min (ds_count ds) 0 = - zlen F /\ - 4294967296 < ds_count ds).
-  { rewrite dec_scan_10. eexists. split; [reflexivity|]. unfold body.
+  { unfold body. rewrite (dec_scan_body base I (opt_frac F) Hbase HI HneI (not_prefix_plain F)).
+    eexists. split; [reflexivity|].
     assert (HzI : 1 <= zlen I) by (rewrite EI, zlen_cons; pose proof (zlen_nonneg I0); lia).
     destruct F as [|f0 F0].
     - cbn [opt_frac]. rewrite app_nil_r. rewrite mant_plain_int by assumption.
@@ -1068,8 +1082,8 @@ Proof.
       replace (zlen I + zlen F =? 0) with false by (symmetry; apply Z.eqb_neq; lia).
       repeat split; try reflexivity; lia. }
   destruct Hscan as (ds & Hds & Herr & Hb & Hval & Hrest & Hcnt & Hcnt2).
-  assert (Hsx : scanExponent (10 =? 0) (ds_rest ds) = mkES [] 0 10 false) by (rewrite Hrest; reflexivity).
-  pose proof (parse10_correct z (sign_bytes ng ++ body) 10 ng body ds Hsign Hds Herr Hb) as HP.
+  assert (Hsx : scanExponent (base =? 0) (ds_rest ds) = mkES [] 0 10 false) by (rewrite Hrest; reflexivity).
+  pose proof (parse10_correct z (sign_bytes ng ++ body) base ng body ds Hsign Hds Herr Hb) as HP.
   rewrite Hsx in HP. cbn [es_err es_base es_exp es_rest] in HP.
   rewrite Hval in HP.
   specialize (HP eq_refl eq_refl Hv Hlen Hcnt2 Hprec).
@@ -1145,8 +1159,10 @@ Proof.
       rewrite skipn_app_le by (unfold n, zlen in *; lia).
       rewrite Z.sub_0_r.
       assert (Hsk : zlen (skipn (Z.to_nat e) D) = n - e) by (rewrite zlen_skipn by (unfold n, zlen in *; lia); lia).
-      rewrite ?firstn_app_le by (unfold zlen in Hsk; lia).
-      rewrite firstn_all2 by (unfold zlen in Hsk; lia).
+      assert (Hlen2 : length (skipn (Z.to_nat e) D) = Z.to_nat (n - e)).
+      { apply Nat2Z.inj. rewrite Z2Nat.id by lia. exact Hsk. }
+      rewrite ?firstn_app_le by lia.
+      rewrite <- Hlen2, firstn_all.
       rewrite Hsk. replace (n - e - (n - e)) with 0 by lia. replace (e - e) with 0 by lia.
       change (zeros 0) with (@nil Z). cbn [app]. rewrite !app_nil_r.
       assert (Hne : skipn (Z.to_nat e) D <> []).
@@ -1165,4 +1181,156 @@ Proof.
       { exfalso. apply (f_equal (@zlen Z)) in Ez. rewrite zlen_app, zeros_len in Ez by lia.
         change (zlen (@nil Z)) with 0 in Ez. unfold n in *. lia. }
       cbn [opt_frac app]. reflexivity.
+Qed.
+
+Lemma digval_lead_zeros k (D : bytes) : 0 <= k -> digval (zeros k ++ D) 0 = digval D 0.
+Proof. intros Hk. rewrite digval_app, digval_zeros by lia. reflexivity. Qed.
+
+Lemma all_digits_firstn k (D : bytes) : all_digits D = true -> all_digits (firstn k D) = true.
+Proof.
+  revert k. induction D as [|c D IH]; intros k H; [destruct k; reflexivity|].
+  destruct k; [reflexivity|]. cbn [firstn all_digits forallb] in *.
+  apply andb_true_iff in H as [H1 H2]. rewrite H1. cbn [andb]. apply IH. exact H2.
+Qed.
+
+Lemma all_digits_skipn k (D : bytes) : all_digits D = true -> all_digits (skipn k D) = true.
+Proof.
+  revert k. induction D as [|c D IH]; intros k H; [destruct k; reflexivity|].
+  destruct k; [exact H|]. cbn [skipn]. cbn [all_digits forallb] in H.
+  apply andb_true_iff in H as [_ H2]. apply IH. exact H2.
+Qed.
+
+Theorem roundtrip_f base x z :
+  (base = 10 \/ base = 0) -> WF x -> dform x = Ffinite ->
+  mdigits (mant x) < 2147483648 - 36 -> 0 <= prec z <= MaxPrec ->
+  let p := if prec z =? 0 then DefaultDecimalPrec else prec z in
+  (forall mp, MinPrec x = Some mp -> mp <= p) ->
+  exists t z', Text x 102 (-1) = Some t /\ Parse z t base = POk z' 10 [] /\
+    dform z' = Ffinite /\ neg z' = neg x /\ (mag z' == mag x)%Q /\ acc z' = Exact /\
+    prec z' = p /\ dmode z' = dmode z /\ WF z'.
+Proof.
+  intros Hbase Hwf Hf Hlen Hprec p Hmp.
+  pose proof (WF_finite x Hwf Hf) as Hx.
+  destruct (sig_digits x Hx Hf) as (D & S).
+  pose proof (text_f x D S Hf) as Ht.
+  pose proof (sd_digits x D S) as HdD. pose proof (sd_range x D S) as Hrange.
+  destruct (sd_len x D S) as [HlD HlD2].
+  destruct Hx as [Hne Hok Htop Hprecx Hexp Htail].
+  set (e := exp x) in *. set (n := zlen D) in *.
+  assert (Hpos : 0 < digval D 0).
+  { assert (0 < 10 ^ (n - 1)) by (apply Z.pow_pos_nonneg; lia). lia. }
+  assert (HndD : ndig (digval D 0) = n) by (apply ndig_digits; assumption).
+  assert (Hmpx : n <= p) by (apply Hmp; exact (sd_minprec x D S)).
+  (* the value written by the two parts, as  c * 10^j  with exponent  e - n - j *)
+  assert (Hparts : exists j, 0 <= j /\ all_digits (f_int D e) = true /\ f_int D e <> [] /\
+             all_digits (f_frac D e) = true /\
+             digval (f_int D e ++ f_frac D e) 0 = digval D 0 * 10 ^ j /\
+             - zlen (f_frac D e) = e - n - j /\ zlen (f_frac D e) < 4294967296 /\ n + j <= Z.max n e).
+  { unfold f_int, f_frac. fold n. unfold MinExp, MaxExp in Hexp.
+    destruct (Z.leb_spec n e) as [Hge|Hlt].
+    - exists (e - n). split; [lia|]. rewrite app_nil_r, all_digits_app, HdD, all_digits_zeros.
+      split; [reflexivity|]. split.
+      { intros E0. apply (f_equal (@zlen Z)) in E0. rewrite zlen_app, zeros_len in E0 by lia.
+        change (zlen (@nil Z)) with 0 in E0. fold n in E0. lia. }
+      split; [reflexivity|]. rewrite digval_app, digval_zeros by lia.
+      change (zlen (@nil Z)) with 0. repeat split; lia.
+    - destruct (Z.ltb_spec 0 e) as [Hp0|Hnp].
+      + exists 0. split; [lia|]. rewrite firstn_skipn, Z.pow_0_r, Z.mul_1_r.
+        split; [apply all_digits_firstn; exact HdD|]. split.
+        { intros E0. apply (f_equal (@length Z)) in E0. rewrite firstn_length in E0. unfold n, zlen in *. cbn in E0. lia. }
+        split; [apply all_digits_skipn; exact HdD|]. split; [reflexivity|].
+        rewrite zlen_skipn by (unfold n, zlen in *; lia). fold n. lia.
+      + exists 0. split; [lia|]. rewrite Z.pow_0_r, Z.mul_1_r.
+        split; [reflexivity|]. split; [discriminate|].
+        split; [rewrite all_digits_app, all_digits_zeros; exact HdD|].
+        split; [change ([48] ++ zeros (- e) ++ D) with (zeros 1 ++ zeros (- e) ++ D);
+                rewrite !digval_lead_zeros by lia; reflexivity|].
+        rewrite zlen_app, zeros_len by lia. fold n. lia. }
+  destruct Hparts as (j & Hj & HdI & HneI & HdF & Hval & Hfc & HlF & Hjn).
+  assert (HPj : 0 < 10 ^ j) by (apply Z.pow_pos_nonneg; lia).
+  assert (Hnd : ndig (digval D 0 * 10 ^ j) = n + j).
+  { apply ndig_unique; [lia|]. destruct Hrange as [Hlo Hhi].
+    assert (E1 : 10 ^ (n + j - 1) = 10 ^ (n - 1) * 10 ^ j) by (rewrite <- Z.pow_add_r by lia; f_equal; lia).
+    assert (E2 : 10 ^ (n + j) = 10 ^ n * 10 ^ j) by (rewrite <- Z.pow_add_r by lia; f_equal; lia).
+    rewrite E1, E2. nia. }
+  pose proof (parse_plain base z (neg x) (f_int D e) (f_frac D e) Hbase HdI HneI HdF) as HP.
+  cbv zeta in HP. rewrite Hval, Hnd, Hfc in HP.
+  assert (Hjb : n + j <= 2147483647) by (unfold MinExp, MaxExp in Hexp; lia).
+  destruct (HP ltac:(nia) ltac:(unfold MinExp, MaxExp in *; lia) HlF Hprec ltac:(lia)) as (z' & Hrun & Hspec & Hp' & Hm' & Hwf').
+  fold p in Hspec, Hp'.
+  eexists. exists z'. split; [exact Ht|]. split; [exact Hrun|].
+  assert (EQ : (scaled (digval D 0 * 10 ^ j) (e - n - j) == scaled (digval D 0) (e - n))%Q).
+  { rewrite scaled_pow by lia. apply (scaled_eq_gen _ _ _ _ (e - n)); try lia. f_equal. f_equal. lia. }
+  apply (result_spec_ext' _ _ _ _ _ _ EQ) in Hspec.
+  destruct (result_spec_exact p (dmode z) (neg x) (digval D 0) (e - n) z') as (A1 & A2 & A3 & A4);
+    try assumption; try lia.
+  split; [exact A2|]. split; [exact A1|]. split; [rewrite A3; symmetry; apply (mag_sig x D S)|].
+  split; [exact A4|]. auto.
+Qed.
+
+(* 'g', 'G' and MarshalText (= 'g', -1): the 'e'/'E' or the 'f' output *)
+Theorem roundtrip_g base x z fmt :
+  (base = 10 \/ base = 0) -> WF x -> dform x = Ffinite -> (fmt = 103 \/ fmt = 71) ->
+  mdigits (mant x) < 2147483648 - 36 -> 0 <= prec z <= MaxPrec ->
+  let p := if prec z =? 0 then DefaultDecimalPrec else prec z in
+  (forall mp, MinPrec x = Some mp -> mp <= p) ->
+  exists t z', Text x fmt (-1) = Some t /\ Parse z t base = POk z' 10 [] /\
+    dform z' = Ffinite /\ neg z' = neg x /\ (mag z' == mag x)%Q /\ acc z' = Exact /\
+    prec z' = p /\ dmode z' = dmode z /\ WF z'.
+Proof.
+  intros Hbase Hwf Hf Hfmt Hlen Hprec p Hmp.
+  pose proof (WF_finite x Hwf Hf) as Hx.
+  destruct (sig_digits x Hx Hf) as (D & S).
+  destruct (text_g x D S Hf) as [Hg HG].
+  destruct Hfmt as [-> | ->]; [rewrite Hg|rewrite HG];
+    destruct ((exp x - 1 <? -4) || (6 <=? exp x - 1)).
+  - apply roundtrip_e; auto. lia.
+  - apply roundtrip_f; auto.
+  - apply roundtrip_e; auto. lia.
+  - apply roundtrip_f; auto.
+Qed.
+
+(* ------------------------------------------------------------------ *)
+(* MarshalText / UnmarshalText, zeros and infinities *)
+
+Theorem roundtrip_marshal x z :
+  WF x -> dform x = Ffinite ->
+  mdigits (mant x) < 2147483648 - 36 -> 0 <= prec z <= MaxPrec ->
+  let p := if prec z =? 0 then DefaultDecimalPrec else prec z in
+  (forall mp, MinPrec x = Some mp -> mp <= p) ->
+  exists t z', MarshalText x = Some t /\ UnmarshalText z t = POk z' 10 [] /\
+    dform z' = Ffinite /\ neg z' = neg x /\ (mag z' == mag x)%Q /\ acc z' = Exact /\
+    prec z' = p /\ dmode z' = dmode z /\ WF z'.
+Proof.
+  intros Hwf Hf Hlen Hprec p Hmp.
+  exact (roundtrip_g 0 x z 103 (or_intror eq_refl) Hwf Hf (or_introl eq_refl) Hlen Hprec Hmp).
+Qed.
+
+(* +-0 prints as "0" / "-0" in the 'g' format and parses back to a zero of that sign *)
+Theorem roundtrip_zero base x z :
+  (base = 10 \/ base = 0) -> dform x = Fzero ->
+  let p := if prec z =? 0 then DefaultDecimalPrec else prec z in
+  exists z', Text x 103 (-1) = Some (sign_bytes (neg x) ++ [48]) /\
+    Parse z (sign_bytes (neg x) ++ [48]) base = POk z' 10 [] /\
+    dform z' = Fzero /\ neg z' = neg x /\ acc z' = Exact /\ prec z' = p /\ dmode z' = dmode z.
+Proof.
+  intros Hbase Hf p.
+  assert (Ht : Text x 103 (-1) = Some (sign_bytes (neg x) ++ [48])).
+  { unfold Text, Append, MinPrec, mexp, fmtF, toa. rewrite Hf. cbv beta iota zeta.
+    cbn [Z.eqb Pos.eqb is_eE is_gG orb andb Z.ltb Z.compare app]. unfold MinPrec, mexp, toa. rewrite Hf.
+    cbv beta iota zeta. cbn [Z.eqb Pos.eqb is_eE is_gG orb andb Z.ltb Z.leb Z.compare app Z.sub Z.max Z.opp Z.add].
+    unfold sign_bytes. destruct (neg x); reflexivity. }
+  destruct Hbase as [-> | ->]; unfold sign_bytes; destruct (neg x);
+    (eexists; split; [exact Ht|]; split; [reflexivity|]; repeat split; reflexivity).
+Qed.
+
+(* +-Inf prints as "+Inf" / "-Inf" and parses back to that infinity (for every base argument) *)
+Theorem roundtrip_inf base x z fmt :
+  dform x = Finf ->
+  exists z', Text x fmt (-1) = Some (s_Inf_signed (neg x)) /\
+    Parse z (s_Inf_signed (neg x)) base = POk z' 0 [] /\
+    dform z' = Finf /\ neg z' = neg x /\ acc z' = Exact /\ prec z' = prec z /\ dmode z' = dmode z.
+Proof.
+  intros Hf. unfold Text, Append. rewrite Hf.
+  unfold s_Inf_signed. destruct (neg x); (eexists; split; [reflexivity|]; split; [reflexivity|]; repeat split; reflexivity).
 Qed.
